@@ -125,7 +125,9 @@ def ensure_nonempty_centers(records: dict, centers: np.ndarray) -> np.ndarray:
     radec = np.deg2rad(np.column_stack([records["ra"], records["dec"]]))
     n = len(radec)
     if n < len(centers):
-        return centers[: max(n, 1)]
+        centers = centers[: max(n, 1)]
+    if n == 0:
+        return centers
     for _ in range(4 * len(centers)):
         ids, _ = nearest_center(radec, centers)
         counts = np.bincount(ids, minlength=len(centers))
